@@ -153,6 +153,16 @@ def one_case(rep, scn, k, kp, heights, tm):
         # all equal (up to rounding): every density is MAX_DENSITY; a rounding-sized spread may also map affinely
         if mx == mn and not all(d == c.MAX_DENSITY and cc == c.MAX_DENSITY - 1 for d, cc in zip(dens_code, cost_code)):
             bad.append(("all_equal_pdf_not_mapped_to_max_density", dens_code[0], float(c.MAX_DENSITY)))
+        # a rounding-sized spread: whichever way the code's own values fell (all equal -> MAX_DENSITY everywhere; not all equal ->
+        # the affine map), the ends of the map are exact - the recorded minimum goes to 1 and the recorded maximum to MAX_DENSITY
+        if float(sg.min_density) == float(sg.max_density):
+            if not all(d == c.MAX_DENSITY for d in dens_code):
+                bad.append(("all_equal_pdf_not_mapped_to_max_density", dens_code[0], float(c.MAX_DENSITY)))
+        else:
+            if abs(min(dens_code) - 1.0) > 1e-9 * c.MAX_DENSITY:
+                bad.append(("minimum_pdf_not_mapped_to_1", min(dens_code), 1.0))
+            if abs(max(dens_code) - c.MAX_DENSITY) > 1e-9 * c.MAX_DENSITY:
+                bad.append(("maximum_pdf_not_mapped_to_max_density", max(dens_code), float(c.MAX_DENSITY)))
     else:
         e = dict(env)
         e[("v", "mn")], e[("v", "mx")] = mn, mx
@@ -168,7 +178,9 @@ def one_case(rep, scn, k, kp, heights, tm):
         # endpoints, up to rounding: 999 * x / x + 1 need not be exactly 1000, and when the pdf values are nearly equal the
         # affine map amplifies last-bit differences of the pdf by |pdf| / (max - min)  (conditioning-aware allowance;
         # the first version compared my reference arg-max with the code's and raised a false alarm under VERIF_SEED=3)
-        tol_end = 1e-9 * c.MAX_DENSITY + (c.MAX_DENSITY - 1) * 1e-14 * max(abs(mx), abs(mn)) / (mx - mn)
+        # (the code's own minimum and maximum: the sample whose pdf IS the recorded minimum / maximum maps to (MAX-1)*0/r + 1 and
+        # (MAX-1)*r/r + 1, whatever the size of the range r - no conditioning allowance is needed for them)
+        tol_end = 1e-9 * c.MAX_DENSITY
         if abs(min(dens_code) - 1.0) > tol_end:
             bad.append(("minimum_pdf_not_mapped_to_1", min(dens_code), 1.0))
         if abs(max(dens_code) - c.MAX_DENSITY) > tol_end:
@@ -276,6 +288,13 @@ def scenarios(rep, tier, seed):
             # densest sample first / last (ordering matters for min/max tracking)
             order = np.argsort(np.linalg.norm(Z - Z.mean(0), axis=1))
             Z = Z[order if rng.random() < 0.5 else order[::-1]]
+        if i % 10 == 7:
+            # vertices of a regular polygon (rotated): every sample has mathematically the same k-NN distances, the floats differ in
+            # the last place - a rounding-sized spread of the unmapped densities
+            m_ = rng.randrange(3, 10)
+            ang = rng.random()
+            Z = np.array([[np.cos(ang + 2 * np.pi * t / m_), np.sin(ang + 2 * np.pi * t / m_)] for t in range(m_)]) * rng.choice([1.0, 3.7])
+            n, dim, kind = m_, 2, 3
         k = rng.randrange(1, 7)
         kp = rng.randrange(1, min(k, n - 1) + 1) if n >= 2 else None
         met = rng.choice(mets)
